@@ -1961,6 +1961,7 @@ br_ssl_engine_set_session_parameters(br_ssl_engine_context *cc,
 	const br_ssl_session_parameters *pp)
 {
 	memcpy(&cc->session, pp, sizeof *pp);
+	cc->hs_unfinished = 0;
 }
 
 /**
